@@ -12,8 +12,10 @@ rd <n> <byte>*                                 -> none | id=… tc=… qs=name:t
 ```
 `<main>`/`<fb>` are the upstreams the implementation was seen to pick (the random choice is
 an input of the model).  An outcome is `r<tok>`, `n` (net.Error), `o` (other error), `z`
-(nil, nil) or `w.<net>.<udpwire>.<tcpwire>.<tok>`; a wire is one of
-`ok tc id nm cs ty q2 q0 bad net eof`. -/
+(nil, nil) or `w.<net>.<udpwire>.<tcpwire>.<tok>`; a wire is `<base>[+tc][+na]` with base one of
+`ok id nm cs ty q2 q0 bad net eof` (`tc` alone is `ok+tc`): how the reply relates to the query,
+whether its TC bit is set, and whether it carries no answer (token 0).  The modifiers apply to
+every base that is a message, so a mismatch can be combined with truncation. -/
 namespace Agd.Driver.C17
 open Agd.Forward Agd.Driver
 
@@ -24,7 +26,7 @@ structure S where
 def reqId : Nat := 7
 def reqQ : Question := { name := [97, 98, 46], qtype := 1 }
 
-def wire (tok : Nat) : String → Wire
+def baseWire (tok : Nat) : String → Wire
   | "ok" => .msg { id := reqId, qs := [reqQ], tc := false, tok := tok }
   | "tc" => .msg { id := reqId, qs := [reqQ], tc := true, tok := tok }
   | "id" => .msg { id := reqId + 1, qs := [reqQ], tc := false, tok := tok }
@@ -36,6 +38,21 @@ def wire (tok : Nat) : String → Wire
   | "net" => .netErr
   | "eof" => .eof
   | _ => .bad
+
+/-- One modifier applied to a wire; `none` for an unknown modifier. -/
+def modWire (w : Wire) (m : String) : Option Wire :=
+  match w, m with
+  | .msg x, "tc" => some (.msg { x with tc := true })
+  | .msg x, "na" => some (.msg { x with tok := 0 })
+  | _, _ => none
+
+def wire (tok : Nat) (s : String) : Wire :=
+  match s.splitOn "+" with
+  | [] => .bad
+  | b :: mods =>
+    match mods.foldl (fun w m => w.bind (modWire · m)) (some (baseWire tok b)) with
+    | some w => w
+    | none => .bad
 
 def net : String → Net
   | "udp" => .udp
